@@ -355,7 +355,8 @@ def int_range_into_enum_checks_every_value(ctx):
                 lv = src(loop.target)
                 if any(isinstance(c.func, ast.Name) and c.func.id == p and c.args and src(c.args[0]) == lv for c in calls_in(loop)):
                     full = True
-        calls = [c for st in n.body for c in calls_in(st) if isinstance(c.func, ast.Name) and c.func.id == p]
+        calls = [c for st in n.body for c in calls_in(st) if (isinstance(c.func, ast.Name) and c.func.id == p) or
+                 (isinstance(c.func, ast.Attribute) and dotted(c.func.value) == p and c.func.attr in ('validate', '__call__', 'import_value'))]
         endpoints_only = bool(calls) and all(c.args and src(c.args[0]) in ('self.min', 'self.max') for c in calls)
         construct = f'{f.qualname}:every integer of the range is checked against the enum'
         if full:
@@ -474,3 +475,53 @@ def struct_compatible_checks_every_member(ctx):
                   'member.compatible(other.members[k]) is called unconditionally for every member',
                   'a member is skipped (continue / conditional call): a value carrying that member is valid for this struct but '
                   'refused by the other one although compatible() passed', f)
+
+
+def _lossy(expr):
+    """a formatting round trip inside an expression: float(f'{x:g}'), '%g' % x, round(x, n), format(x, spec)"""
+    for n in ast.walk(expr):
+        if isinstance(n, ast.FormattedValue) and n.format_spec is not None:
+            return n
+        if isinstance(n, ast.BinOp) and isinstance(n.op, ast.Mod) and isinstance(n.left, ast.Constant) and isinstance(n.left.value, str):
+            return n
+        if isinstance(n, ast.Call) and dotted(n.func) == 'round' and len(n.args) == 2:
+            return n
+        if isinstance(n, ast.Call) and (dotted(n.func) == 'format' or call_attr(n) == 'format'):
+            return n
+    return None
+
+
+@rule('C03.R1c', min_instances=8)
+def exported_property_values_are_exact(ctx):
+    """the values export_datatype puts into the datainfo are the property values themselves or exact conversions of
+    them (the integer grid index of a scaled limit): a value that went through number formatting (as __repr__ does for
+    readability) rebuilds a different type"""
+    m = ctx.m
+    from sa.lib import helper_methods_called
+    for q in m.subclasses(f'{DT}.DataType'):
+        ci = m.classes[q]
+        f = ci.methods.get('export_datatype')
+        if ci.module.name != DT or f is None:
+            continue
+        ctx.analysed(f)
+        units = [f] + [h for site, h in helper_methods_called(m, f) if h.name not in ('get_info', 'exportProperties')]
+        n = 0
+        for u in units:
+            for c in calls_in(u.node):
+                if call_attr(c) != 'get_info' and not (isinstance(c.func, ast.Name) and c.func.id == 'dict'):
+                    continue
+                for k in c.keywords:
+                    if k.arg in (None, 'type'):
+                        continue
+                    n += 1
+                    bad = _lossy(k.value)
+                    ctx.check(bad is None, f'{f.qualname}:exported {k.arg} is exact', k.value, f'`{src(k.value)}`',
+                              f'datainfo key `{k.arg}` is exported as `{src(k.value)}`: `{src(bad) if bad is not None else ""}` shortens the number, '
+                              'so the type rebuilt from the description (on a client, in copy(), in Parameter clones) has a different '
+                              f'{k.arg} and converts the same wire values to different numbers', u)
+            for r in [x for x in body_walk(u.node) if isinstance(x, ast.Return) and x.value is not None]:
+                bad = _lossy(r.value) if not any(isinstance(x, ast.Call) and call_attr(x) == 'get_info' for x in ast.walk(r.value)) else None
+                if bad is not None:
+                    ctx.bad(f'{f.qualname}:exported datainfo is exact', r, f'`{src(bad)}` formats a number on the way into the datainfo', u)
+        if n == 0:
+            ctx.ok(f'{f.qualname}:exported datainfo is exact', f.node, 'no overridden property values', f)
